@@ -67,8 +67,11 @@ def check_elastic(prog, call, lib):
     classes = ["kind." + prog["kind"], "hyp." + h] + (["algo." + prog["algo"]] if "algo" in prog else [])
     out = bt.perform(gb, lib, call, 0)
     key = "C41." + prog["kind"]
+    if out["rc"] == -1 and prog["kind"] == "hooke_brick":
+        # the solver gave up (seen with PowellDogLeg_Broyden on this linear system): reported failure, allowed
+        return Result(True, classes=classes + ["outcome.integration_failure", "failure." + prog["algo"]])
     if out["rc"] != 1 and out["rc"] != 0:
-        # a linear elastic step has no reason to fail
+        # an explicit evaluation of Hooke's law has no way to fail
         return fail(key + ".failure", "elastic step returned %d (%s)" % (out["rc"], out["msg"]), classes)
     deto = np.array(call["deto"])
     errs = {}
@@ -107,6 +110,16 @@ def check_elastic(prog, call, lib):
         tol = 16 * U * S + 10 * eps * N * (3 * abs(lam) + 2 * mu)
         errs["hooke_brick.strain/eps"] = amax(eel1 - e) / eps
     err = amax(out["sig"] - ref)
+    if not err <= tol and prog["kind"] == "hooke_default" and h == "AxisymmetricalGeneralisedPlaneStress":
+        # known class: computeAlteredElasticStiffness<AXISYMMETRICALGENERALISEDPLANESTRESS> condenses the hoop
+        # component (index 2, the plane stress layout) instead of the axial one (index 1, (rr,zz,tt) storage)
+        wrong = bt.plane_stress_stiffness(young, nu, n, 2) @ (np.array(call["eto0"]) + deto)
+        wrong[axis] = call["sigzz"][0] + call["sigzz"][1]
+        if amax(out["sig"] - wrong) <= tol:
+            return fail("C41.hooke_default.hooke.agps_altered_stiffness",
+                        "AxisymmetricalGeneralisedPlaneStress: sig=%r is the stiffness condensed on the hoop component applied "
+                        "to e=%r; condensed on the axial component (sig_zz imposed): %r" % (
+                            out["sig"].tolist(), (np.array(call["eto0"]) + deto).tolist(), ref.tolist()), classes)
     errs[prog["kind"] + ".hooke/tol"] = err / tol
     if not err <= tol:
         return fail(key + ".hooke", "sig=%r expected D:(e+de)=%r (err %.3g, tol %.3g)" % (
